@@ -72,6 +72,7 @@ class Models:
         self.spec_builtins = {
             "old": self.spec_old, "forall": self.spec_forall, "exists": self.spec_exists,
             "implies": self.spec_implies, "iff": self.spec_iff, "fresh_value": self.spec_fresh,
+            "with_field": self.spec_with_field,
         }
         self.modules = {}          # "module.attr" -> value or handler
         self.builtin_handlers = {}
@@ -351,8 +352,11 @@ class Models:
                 if not (isinstance(idx, V) and idx.kind == INT):
                     raise Untranslatable("non-integer sequence index", node)
                 n = z3.Length(obj.term) if k == STR else k.len(obj.term)
-                i = z3.If(idx.term < 0, n + idx.term, idx.term)
-                i = z3.simplify(i)
+                okc, ic = concrete(idx)
+                if eng.no_prune and not (okc and ic < 0):
+                    i = idx.term      # spec expressions index with non-negative positions
+                else:
+                    i = z3.simplify(z3.If(idx.term < 0, n + idx.term, idx.term))
                 if eng.no_prune:
                     yield st, (V(STR, z3.SubString(obj.term, i, 1)) if k == STR else V(k.elem, k.at(obj.term, i)))
                     return
@@ -1537,6 +1541,23 @@ class Models:
         a = eng.ev_merged(e.args[0], st, want_bool=True)
         b = eng.ev_merged(e.args[1], st, want_bool=True)
         yield st, V(BOOL, a.term == b.term)
+
+    def spec_with_field(self, eng, e, st):
+        """with_field(obj, "field", value, lambda: expr): value of expr in the state where obj.field := value."""
+        obj = eng.ev_merged(e.args[0], st)
+        ok, fname = concrete(eng.ev_merged(e.args[1], st))
+        val = eng.ev_merged(e.args[2], st)
+        lam = e.args[3]
+        st2 = st.copy()
+        owner, kind = eng.field_kind(obj.kind.cls, fname)
+        eng.write_field(st2, obj, owner, fname, kind, val)
+        base = len(st2.pc)
+        r = eng.ev_merged(lam.body, st2)
+        # facts established while evaluating in the updated state are definitional: keep them
+        for c in st2.pc[base:]:
+            if c.get_id() in st2.facts:
+                st.assume(c)
+        yield st, r
 
     def spec_fresh(self, eng, e, st):
         for st1, k in eng.ev(e.args[0], st):
